@@ -103,7 +103,36 @@ def check(ctx, pieces, cuts, model_res=None, register=True):
     return chunks
 
 
-READ = 4096      # socket_read_task reads at most this many bytes at a time: a burst arrives as full reads + a rest
+def read_size():
+    """The argument of `reader.read(n)` in socket_read_task, read from the current source (literal, or a module / class
+    constant by name); 4096 when it cannot be found (then the bursts are still cut at 4096, 2048 and 8192)."""
+    import ast
+    import os
+    from vlib import core
+    try:
+        tree = ast.parse(open(os.path.join(core.REPO, "asyncfix/connection.py")).read())
+        consts = {}
+        for n in ast.walk(tree):
+            if isinstance(n, ast.Assign) and isinstance(n.value, ast.Constant) and isinstance(n.value.value, int):
+                for t in n.targets:
+                    if isinstance(t, ast.Name):
+                        consts[t.id] = n.value.value
+        for fn in ast.walk(tree):
+            if isinstance(fn, ast.AsyncFunctionDef) and fn.name == "socket_read_task":
+                for c in ast.walk(fn):
+                    if isinstance(c, ast.Call) and isinstance(c.func, ast.Attribute) and c.func.attr == "read" and c.args:
+                        a = c.args[0]
+                        if isinstance(a, ast.Constant) and isinstance(a.value, int):
+                            return a.value, True
+                        name = a.id if isinstance(a, ast.Name) else a.attr if isinstance(a, ast.Attribute) else None
+                        if name in consts:
+                            return consts[name], True
+    except Exception:  # noqa: BLE001
+        pass
+    return 4096, False
+
+
+READ, READ_FOUND = 4096, False      # set by plan(): socket_read_task reads at most this many bytes at a time
 
 
 def gen_burst(rng, exact):
@@ -179,7 +208,12 @@ def plan(ctx):
         jobs.append((pieces, list(range(1, L))))          # 1-byte reads
     # bursts longer than one read, cut where read(4096) cuts them: full reads, the last one full too (exact) or not,
     # and the same with one boundary moved by a byte (added after seeded change C03-b: a decoder call skipped after a full read)
+    global READ, READ_FOUND
+    READ, READ_FOUND = read_size()
+    ctx.extra["read_size"] = {"bytes": READ, "from_source": READ_FOUND}
+    sizes = [READ] if READ_FOUND else [4096, 2048, 8192]
     for i in range(ctx.scale(8, 60)):
+        READ = sizes[i % len(sizes)]
         pieces = gen_burst(rng, exact=(i % 2 == 0))
         L = sum(len(b) for _, b in pieces)
         full = list(range(READ, L, READ))
